@@ -103,6 +103,14 @@ def gen_cases(tier, seed):
             drive["A"] = S.field_spec(rngh, dev, o, "loop", b=0.25)  # a source that depends on z: the film's height matters
         cases.append({"layer": "history", "config": f"history{k}", "between": "dz_copy" if k % 4 == 3 else None, "device": dev, "options": dict(o, output="file"), "drive": drive, "reuse_options": bool(o["adaptive"]), "layer_sweep": bool(k % 4 in (1, 2)),
                       "translate": [[0.37, 3.1, 41.7][(k // 2) % 3] * np.cos(ang), [0.37, 3.1, 41.7][(k // 2) % 3] * np.sin(ang)] if k % 2 == 0 else None, "cost": 20, "timeout": 900})
+    for k in range(3 if tier == "quick" else 10):
+        # meshing is part of the simulation: the same Device meshed again with the same arguments gives the same mesh bit for bit, equal to
+        # that of an identically built Device, and meshing leaves the outlines it was given alone (devices away from the origin included)
+        dev = zoo.gen_device(rngh, n_terminals=[0, 2, 3][k % 3], n_holes=[1, 0, 2][k % 3] if k % 3 != 1 else 0, probes=0, size="small", smooth=[0, 5][k % 2],
+                             film_kind=[None, "box", "box"][k % 3])
+        xi_ = dev["layer"]["xi"]
+        dev["offset"] = [[0.0, 0.0], [7.3 * xi_, -4.1 * xi_], [-55.0 * xi_, 31.0 * xi_]][k % 3]
+        cases.append({"layer": "mesh_repeat", "config": f"mesh_repeat{k}", "device": dev, "cost": 5, "timeout": 300})
     for k in range(2 if tier == "quick" else 6):
         # a time-dependent vector potential given as ONE plain Parameter object that the caller keeps: run, mention the object in an
         # expression that is never used (2 * field), run again with it; a thermalised run evaluates the same times twice
@@ -174,6 +182,8 @@ def run_case(spec):
         return _run_history(spec)
     if spec.get("layer") == "param_reuse":
         return _run_param_reuse(spec)
+    if spec.get("layer") == "mesh_repeat":
+        return _run_mesh_repeat(spec)
     import numba
 
     numba_threads = int(numba.get_num_threads())
@@ -234,6 +244,48 @@ def run_case(spec):
             "nontrivial": len(ups) >= 10, "config": spec["config"], "digests": digests, "env": spec["env"], "rep": spec["rep"],
             "key": f"{spec['config']}|{spec['rep']}",
             "sample": {"config": spec["config"], "env": spec["env"], "updates": len(ups), "digests": {k: v[:16] for k, v in digests.items()}}}
+
+
+def _run_mesh_repeat(spec):
+    dev, why = zoo.try_build_device(spec["device"])
+    if dev is None:
+        return {"violations": [], "counters": {"refused_mesh": 1}, "classes": ["refused"], "nontrivial": False, "config": spec["config"]}
+    twin, _ = zoo.try_build_device(spec["device"])
+    V, C = [], {"mesh_repeat_checks": 0}
+    m_ = spec["device"].get("mesh", {})
+
+    def snap(d):
+        em = d.mesh.edge_mesh
+        return {"sites": simmon.h(d.mesh.sites), "elements": simmon.h(d.mesh.elements), "areas": simmon.h(d.mesh.areas), "edges": simmon.h(em.edges),
+                "dual_edge_lengths": simmon.h(em.dual_edge_lengths), "boundary_indices": simmon.h(d.mesh.boundary_indices)}
+
+    def outlines(d):
+        return {p.name: np.array(p.points, copy=True) for p in [d.film] + list(d.holes) + list(d.terminals)}
+
+    first, out0 = snap(dev), outlines(dev)
+    if twin is not None:
+        C["mesh_repeat_checks"] += 1
+        other = snap(twin)
+        bad = [k for k in first if first[k] != other[k]]
+        if bad:
+            V.append({"kind": "identically_built_devices_mesh_differently", "mechanism": "mesh_not_reproducible", "detail": {"arrays": bad}})
+    for rep in range(2):
+        dev.make_mesh(max_edge_length=m_.get("max_edge_length"), min_points=m_.get("min_points"), smooth=m_.get("smooth", 0))
+        C["mesh_repeat_checks"] += 1
+        again = snap(dev)
+        bad = [k for k in first if first[k] != again[k]]
+        if bad:
+            V.append({"kind": "same_device_meshed_again_differs", "mechanism": "mesh_not_reproducible",
+                      "detail": {"repeat": rep + 1, "arrays": bad, "sites_first": int(len(twin.mesh.sites)) if twin is not None else None, "sites_now": int(len(dev.mesh.sites))}})
+            break
+    out1 = outlines(dev)
+    C["outline_immutability_checks"] = len(out0)
+    moved = [n for n in out0 if out0[n].shape != out1[n].shape or not np.array_equal(out0[n], out1[n])]
+    if moved:
+        V.append({"kind": "make_mesh_changes_callers_outlines", "mechanism": "solve_changes_callers_inputs",
+                  "detail": {"polygons": moved, "max_abs_change": {n: float(np.max(np.abs(out0[n] - out1[n]))) for n in moved if out0[n].shape == out1[n].shape}}})
+    return {"violations": V, "counters": C, "classes": ["layer=mesh_repeat", "offset=" + str(bool(any(spec["device"].get("offset", [0, 0]))))], "nontrivial": True,
+            "config": spec["config"], "key": spec["config"], "sample": {"config": spec["config"], "sites": int(len(dev.mesh.sites)), "digest": first["sites"][:16]}}
 
 
 def _run_seed_reuse(spec):
